@@ -31,3 +31,5 @@ import SwcVerif.Props.C19Front
 #print axioms C19.generated_pop_getitem
 #print axioms C19.frontStep_inv
 #print axioms C19.generated_front_load_at_most_once
+#print axioms C19.generated_pop_slice_partial
+#print axioms C19.generated_to_population
